@@ -31,7 +31,7 @@ ASSUMPTIONS = [
 ]
 
 DTYPES = ["bool", "int8", "int16", "int32", "uint8", "float16", "float32"]
-FLOATS = [0.0, 1.0, -1.0, 0.5, 2.0, 3.0, -2.5, 100.0]
+FLOATS = [0.0, 1.0, -1.0, 0.5, 2.0, 3.0, -2.5, 100.0, float("inf"), float("-inf")]
 
 
 # ------------------------------------------------------------------------------------- strategies
@@ -281,7 +281,8 @@ def _mutate(leaf, vals, mut, fresh, pos):
         else:
             b = a.astype("float64")
             v = b.reshape(-1)[p]
-            b.reshape(-1)[p] = v + (abs(v) + 1.0) * 2.0 ** -40
+            if np.isfinite(v):       # (an infinite entry stays as it is: inf - inf would be NaN, outside the domain)
+                b.reshape(-1)[p] = v + (abs(v) + 1.0) * 2.0 ** -40
         return b
     raise AssertionError(mut)
 
